@@ -234,6 +234,7 @@ type world struct {
 	listedLoop bool
 	pumpDemo   map[string]bool // classes of abandoned watchers seen (for the known-finding demonstration)
 	torn       bool
+	failed     bool
 	// keys for which a live event has reached some watcher through the store-wide pump (configuration stores)
 	pumpConfirmed map[int]bool
 	touched       map[int]bool // v3 transaction store: targets named in some call so far
@@ -1264,6 +1265,10 @@ func (w *world) teardown() {
 		}
 	}
 	w.client.Close()
+	if w.failed || (w.c.Store == KindV3Tx && !canCancel) {
+		// a failing case, or a store whose watches could not be cancelled, may leave goroutines parked
+		forgetParked()
+	}
 }
 
 // ---- run -------------------------------------------------------------------------
@@ -1282,10 +1287,12 @@ func runCase(c Case, x *vstat.Ctx) error {
 	defer w.teardown()
 	for i, o := range c.Ops {
 		if err := w.step(i, o); err != nil {
+			w.failed = true
 			return err
 		}
 	}
 	if err := w.quiesce(); err != nil {
+		w.failed = true
 		return err
 	}
 	w.teardown()
